@@ -38,7 +38,14 @@ var c07Reqs = []c07Req{
 	{"mutation", `mutation { m1(v:1) { kind nodes(n:2) { kind } } s1(v:2) }`, nil},
 	{"invalid", `{ nope node { zzz } }`, nil},
 	{"scalars", `{ x1 x2 leafy { s i } }`, nil},
+	// literal variants of one shape: under the normalising cache they share a plan
+	{"lit-1", `{ echo(i:1, s:"one") a { items(n:1) { n } } }`, nil},
+	{"lit-2", `{ echo(i:2, s:"two") a { items(n:2) { n } } }`, nil},
+	{"lit-3", `{ echo(i:3, s:"three") a { items(n:3) { n } } }`, nil},
 }
+
+// index of the first literal variant
+const c07LitBase = 12
 
 type C07Op struct {
 	Kind string `json:"kind"` // do | cache | plan | validate | reset
@@ -76,10 +83,29 @@ func (p c07) Gen(seed uint64, enum int, tier string) json.RawMessage {
 	for i := range work {
 		work[i] = r.Intn(len(c07Reqs))
 	}
+	kinds := []string{"do", "do", "cache", "cache", "plan", "plan", "validate", "reset"}
+	maxOps := 4
+	switch flavour := r.Intn(10); {
+	case flavour < 2:
+		// cache hammer: several keys kept warm and hit by everybody
+		kinds = []string{"cache", "cache", "cache", "cache", "cache", "cache", "cache", "reset"}
+		s.MaxEntries = 3
+		maxOps = 6
+		work = work[:0]
+		for i := 0; i < 2+r.Intn(2); i++ {
+			work = append(work, r.Intn(len(c07Reqs)))
+		}
+	case flavour < 4:
+		// literal variants of one shape through the normalising cache: two
+		// clients may miss the same normalised key at the same time
+		kinds = []string{"cache", "cache", "cache", "do"}
+		s.Normalize = true
+		work = []int{c07LitBase, c07LitBase + 1, c07LitBase + 2}[:2+r.Intn(2)]
+	}
 	for c := 0; c < nc; c++ {
 		cl := C07Client{Variant: r.Uint64() % 7}
-		for n := 1 + r.Intn(4); n > 0; n-- {
-			kind := []string{"do", "do", "cache", "cache", "plan", "plan", "validate", "reset"}[r.Intn(8)]
+		for n := 1 + r.Intn(maxOps); n > 0; n-- {
+			kind := kinds[r.Intn(len(kinds))]
 			cl.Ops = append(cl.Ops, C07Op{Kind: kind, Req: work[r.Intn(len(work))]})
 		}
 		s.Clients = append(s.Clients, cl)
@@ -171,7 +197,9 @@ func (c07) Run(t TestingT, scn json.RawMessage, tape *Tape) *Outcome {
 	firstEnum := map[string]bool{}
 	s.OnEvent = func(ev *Event) {
 		if ev.Kind == "run" || ev.Kind == "act" {
-			if cache != nil {
+			// (not in the race build: taking the cache's lock from the scheduler
+			// at every step would order all accesses to the cache and hide races)
+			if cache != nil && !RaceBuild {
 				if ml, ll := graphql.PlanCacheLenForVerif(cache); (ml > sc.MaxEntries || ll > sc.MaxEntries || ml != ll) && overflow == "" {
 					overflow = fmt.Sprintf("at step %d the cache holds %d map / %d list entries, maximum %d", ev.Step, ml, ll, sc.MaxEntries)
 				}
@@ -349,7 +377,10 @@ func newRaceReports(prop string) []Violation {
 			top := "?"
 			for _, m := range reFrame.FindAllStringSubmatch(para, -1) {
 				fn := m[1]
-				if strings.HasPrefix(fn, "runtime.") || strings.HasPrefix(fn, "sync.") || strings.HasPrefix(fn, "sync/atomic.") || strings.HasPrefix(fn, "internal/") {
+				// the access is attributed to the innermost frame that is library
+				// or harness code; standard-library frames above it (container/list,
+				// reflect, sync, runtime ...) are skipped
+				if !strings.HasPrefix(fn, "github.com/graphql-go/graphql") && !strings.HasPrefix(fn, "verif/sim") {
 					continue
 				}
 				top = fn
